@@ -67,7 +67,7 @@ void escape(char const *begin,char const *end,std::ostream &output)
 }
 
 template<typename Iterator>
-void urlencode_impl(char const *b,char const *e,Iterator out)
+void urlencode_impl(char const *b,char const *e,Iterator &out)
 {
 	while(b!=e){
 		char c=*b++;
